@@ -59,6 +59,22 @@ instance {α β : Type} [Ser α] [Ser β] : Ser (α × β) where
   de v := match v with
     | .seq [a, b] => (match Ser.de a, Ser.de b with | some x, some y => some (x, y) | _, _ => none)
     | _ => none
+/-- index tuples `(A, B, …)` are right-nested pairs ending in `Unit` in the model and flat sequences in serde -/
+class SerTuple (τ : Type) where
+  elems : τ → List SVal
+  ofElems : List SVal → Option τ
+instance : SerTuple Unit where
+  elems _ := []
+  ofElems l := match l with | [] => some () | _ => none
+instance {α τ : Type} [Ser α] [SerTuple τ] : SerTuple (α × τ) where
+  elems p := Ser.ser p.1 :: SerTuple.elems p.2
+  ofElems l := match l with
+    | a :: rest => (match Ser.de a, SerTuple.ofElems rest with | some x, some y => some (x, y) | _, _ => none)
+    | [] => none
+instance (priority := high) {α τ : Type} [Ser α] [SerTuple τ] : Ser (α × τ) where
+  ser p := SVal.seq (SerTuple.elems p)
+  de v := match v with | .seq xs => SerTuple.ofElems xs | _ => none
+
 /-- `Option<T>`: `None` is `null`. (A self-describing format cannot tell `Some(None)` from `None`;
 the model keeps them apart by tagging, the check never serialises nested options as indices.) -/
 instance {α : Type} [Ser α] : Ser (Option α) where
